@@ -19,6 +19,7 @@ from uuid import UUID
 from methodtools import lru_cache
 
 from inscripta.biocantor.exc import (
+    EmptyLocationException,
     InvalidAnnotationError,
     InvalidQueryError,
 )
@@ -206,7 +207,12 @@ class AnnotationCollection(AbstractFeatureIntervalCollection):
             for variant_collection in self.variant_collections:
                 for gene_or_feature in itertools.chain(self.genes, self.feature_collections):
                     if gene_or_feature.chunk_relative_location.has_overlap(variant_collection.chunk_relative_location):
-                        new_gene_or_feature = gene_or_feature.incorporate_variants(variant_collection)
+                        try:
+                            new_gene_or_feature = gene_or_feature.incorporate_variants(variant_collection)
+                        except EmptyLocationException:
+                            # nothing of this member (or of one of its children) is left on this haplotype / this chunk:
+                            # it has no alternative annotation there, which must not make the collection unbuildable
+                            continue
                         if variant_collection.guid not in self.alternative_haplotype_mapping:
                             self.alternative_haplotype_mapping[variant_collection.guid] = []
                         self.alternative_haplotype_mapping[variant_collection.guid].append(new_gene_or_feature)
@@ -225,7 +231,10 @@ class AnnotationCollection(AbstractFeatureIntervalCollection):
                     "", gene_or_feature.genomic_start, gene_or_feature.genomic_end
                 ):
                     variant_collection = self.variant_collections[variant_collection_idx]
-                    new_gene_or_feature = gene_or_feature.incorporate_variants(variant_collection)
+                    try:
+                        new_gene_or_feature = gene_or_feature.incorporate_variants(variant_collection)
+                    except EmptyLocationException:
+                        continue
                     if variant_collection.guid not in self.alternative_haplotype_mapping:
                         self.alternative_haplotype_mapping[variant_collection.guid] = []
                     self.alternative_haplotype_mapping[variant_collection.guid].append(new_gene_or_feature)
